@@ -50,6 +50,12 @@ def parse_ty(s):
     s = s.strip()
     if s in ("int", "bool", "real", "float", "none", "str"):
         return Ty(s)
+    if s == "int?":
+        return Ty("int", (), True)
+    if s == "real?":
+        return Ty("real", (), True)
+    if s in ("fn", "fn?"):
+        return Ty("fn", ("field",), s.endswith("?"))
     if s.startswith("real:"):
         # a nominal copy of `real` (e.g. real:reward): same values, but lists of it live in their own heap arrays, so a
         # list of rewards can never alias a list of coordinates; mixing the two list types is rejected by the front end
